@@ -7,8 +7,8 @@ from pktgen import udp_frame, fragments
 
 class Prop(PropBase):
     pid = 'C13'
-    kernels = []
-    vo_targets = ['Props/Properties_C13.vo', 'Proofs/InputSafe.vo', 'Proofs/Layout.vo']
+    kernels = ['InputRaw_feedPacket']
+    vo_targets = ['Props/Properties_C13.vo', 'Proofs/InputSafe.vo', 'Proofs/Layout.vo', 'Proofs/Eq_Copy.vo']
     prop_files = ['Props/Properties_C13.v']
     rule = ('ASan+UBSan build, real receive/decode threads. pcap files: records truncated by the snap length (caplen < len), frames shorter than the headers (0..60 bytes), '
             'longer than an MTU (3000), ARP/IPv6/IP-options/fragments, inconsistent IP total length and header length; user/tail layers 0/4/64, VLAN; sockets (loopback UDP): '
